@@ -6,7 +6,7 @@ From Coq Require Import String.
 From Coq Require Import List Arith Bool ZArith Reals Ring.
 From NV.Lib Require Import RingMat C08Base.
 From NV.Generated Require Import AffineClasses.
-From NV.C08 Require Import Model Proofs Proofs2 ProofsR.
+From NV.C08 Require Import Model Proofs Proofs2 Proofs3 ProofsR.
 Import ListNotations.
 Close Scope R_scope.
 Open Scope list_scope.
@@ -173,10 +173,52 @@ Section Signs.
     pa_apply R r0 r1 radd rmul kernel (pa_compose_glob R r0 radd rmul glob A) x
     = pa_apply R r0 r1 radd rmul kernel glob (happly r0 r1 radd rmul A x).
   Proof. exact (polyaffine_compose_apply_lemma R r0 r1 radd rmul rsub ropp Rth). Qed.
+  (* (10) class closure over any commutative ring: the product of two proper
+     rotations (orthogonal on both sides, det 1) is a proper rotation. *)
+  Theorem rotations_closed :
+    forall A B, is_rot3 R r0 r1 radd rmul rsub A -> is_rot3 R r0 r1 radd rmul rsub B ->
+    is_rot3 R r0 r1 radd rmul rsub (mm r0 radd rmul 3 A B).
+  Proof. exact (rotations_closed_lemma R r0 r1 radd rmul rsub ropp Rth). Qed.
+
+  (* (11) Rigid / Rigid2D closure inside compose: for rigid-shaped a, b with
+     proper rotations, the from_matrix44 of a Rigid-owner class applied to the
+     compose matrix hands rotation_mat2vec exactly R_a R_b (a proper rotation,
+     so the rotation_mat2vec contract applies), keeps the rigid shape, and sets
+     _direct to the "product" of the two flags. *)
+  Theorem rigid_compose_closed :
+    forall k prior o (a b c : xf R), In k class_names -> lookup k src_fx_owner = Some "Rigid"%string ->
+    rigid_shaped R r0 r1 a -> rigid_shaped R r0 r1 b ->
+    is_rot3 R r0 r1 radd rmul rsub (x_R a) -> is_rot3 R r0 r1 radd rmul rsub (x_R b) ->
+    from_matrix44 k prior o (compose_matrix R r0 r1 radd rmul ropp a b) = Some c ->
+    x_R c = mm r0 radd rmul 3 (x_R a) (x_R b) /\ is_rot3 R r0 r1 radd rmul rsub (x_R c) /\
+    rigid_shaped R r0 r1 c /\ x_direct c = Bool.eqb (x_direct a) (x_direct b).
+  Proof. exact (rigid_compose_closed_lemma R r0 r1 radd rmul rsub ropp rdiv rneg Rth rneg_one rneg_mone). Qed.
+
+  (* (12) Similarity / Similarity2D factor: with the cube-root contract
+     s^3 = |det A| (s^3 non-zero and cancellable, as in any field) the matrix A'/s
+     handed to rotation_mat2vec has determinant one and _direct is False exactly
+     when det A < 0.  (Orthogonality of A'/s needs A = s * rotation and is not
+     shown here: partial.) *)
+  Theorem similarity_factor_det_partial :
+    (forall a b, b <> r0 -> rmul (rdiv a b) b = a) ->
+    forall k prior o M x, In k class_names -> lookup k src_fx_owner = Some "Similarity"%string ->
+    wf_aff r0 r1 3 3 M -> o_cs R o <> r0 ->
+    (forall a b, b <> r0 -> rmul a b = b -> a = r1) ->
+    rmul (o_cs R o) (rmul (o_cs R o) (o_cs R o)) <> r0 ->
+    rmul (o_cs R o) (rmul (o_cs R o) (o_cs R o))
+      = (if rneg (det3 (lin_part R M)) then ropp (det3 (lin_part R M)) else det3 (lin_part R M)) ->
+    from_matrix44 k prior o M = Some x ->
+    det3 (x_R x) = r1 /\ x_direct x = negb (rneg (det3 (lin_part R M))).
+  Proof.
+    intros Hd. exact (similarity_factor_det_lemma R r0 r1 radd rmul rsub ropp rdiv rneg Rth Hd).
+  Qed.
 End Signs.
 Print Assumptions sign_fix_factors_proper_affine.
 Print Assumptions sign_fix_factors_proper_rigid.
 Print Assumptions polyaffine_compose_apply.
+Print Assumptions rotations_closed.
+Print Assumptions rigid_compose_closed.
+Print Assumptions similarity_factor_det_partial.
 
 (* (7) Over the real numbers: rotation_vec2mat(r) is a proper rotation
    (R^T R = R R^T = I, det R = 1) whenever theta = |r| exceeds the small-angle
@@ -189,7 +231,34 @@ Theorem rotation_vec2mat_is_rotation :
 Proof. exact vec2mat_rotation_lemma. Qed.
 Print Assumptions rotation_vec2mat_is_rotation.
 
-(* ---------------------------------------------------------------- Z instance: finding and non-vacuity *)
+(* (13) The small-angle branch (theta <= SMALL_ANGLE) is the Taylor matrix, which
+   is NOT exactly orthogonal: its defect is exactly (t2^2/72 - t2^3/576) Sr^2
+   with t2 = |r|^2, hence every entry of R^T R - I is at most |r|^6 / 72 in
+   absolute value (for |r| <= 1e-30: below 1e-181, far under one ulp of 1).
+   Partial: no statement about det, and real (not floating) arithmetic. *)
+Theorem small_angle_branch_is_taylor :
+  forall small_angle max_angle r1 r2 r3 : R,
+  let theta := sqrt (r1 * r1 + r2 * r2 + r3 * r3)%R in
+  ~ (max_angle < theta)%R -> ~ (small_angle < theta)%R ->
+  vec2mat_R small_angle max_angle r1 r2 r3 = taylor_mat (theta * theta)%R r1 r2 r3.
+Proof. exact vec2mat_small_branch. Qed.
+Print Assumptions small_angle_branch_is_taylor.
+
+Theorem small_angle_branch_defect_partial :
+  forall r1 r2 r3 : R,
+  let t2 := (r1 * r1 + r2 * r2 + r3 * r3)%R in
+  let M := taylor_mat t2 r1 r2 r3 in
+  let Sr2 := Rmm 3 (skew R 0%R Ropp r1 r2 r3) (skew R 0%R Ropp r1 r2 r3) in
+  Rmm 3 (Rtrans M) M = Rmadd Rid3 (Rmsmul (t2 * t2 / 72 - t2 * t2 * t2 / 576)%R Sr2) /\
+  ((t2 <= 1)%R ->
+   Forall (Forall (fun x => (Rabs x <= t2 * t2 * t2 / 72)%R))
+          (Rmsmul (t2 * t2 / 72 - t2 * t2 * t2 / 576)%R Sr2)).
+Proof.
+  intros r1 r2 r3. split; [apply taylor_defect_lemma|apply taylor_defect_bound_lemma].
+Qed.
+Print Assumptions small_angle_branch_defect_partial.
+
+(* ---------------------------------------------------------------- Z instance: non-vacuity *)
 Definition zneg (x : Z) : bool := Z.ltb x 0.
 Definition zfrom := from_matrix44 Z 0%Z 1%Z Z.add Z.mul Z.sub Z.opp Z.div zneg.
 Definition zas := as_affine Z 0%Z 1%Z Z.add Z.mul Z.opp.
@@ -234,3 +303,10 @@ Example from_matrix44_reflection_concrete :
   option_map (fun x => (x_direct x, x_Q x, zas x)) (zfrom "Affine"%string true o M)
   = Some (false, [[-1; 0; 0]; [0; -1; 0]; [0; 0; 1]]%Z, M).
 Proof. vm_compute. reflexivity. Qed.
+
+(* non-vacuity of is_rot3 / rotations_closed: a quarter turn about z *)
+Example quarter_turn_is_rot3 :
+  is_rot3 Z 0%Z 1%Z Z.add Z.mul Z.sub [[0; -1; 0]; [1; 0; 0]; [0; 0; 1]]%Z.
+Proof.
+  split; [split; [reflexivity|repeat constructor]|]. repeat split; vm_compute; reflexivity.
+Qed.
